@@ -103,8 +103,9 @@ class DiscreteTimeInterpreter(TimeInterpreter):
 
     def update_sampling_violation_counter(self, duration):
         # the time stamps are given in the default unit of the specification
-        period = self.sampling_period * self.U[self.sampling_period_unit] / self.U[self.ast.unit]
-        tolerance = period * self.sampling_tolerance
+        # (exactly: a period written as 0.067 s is 67 ms, and a gap of 67 ms lies on the band, not outside it)
+        period = self.get_sampling_period_fraction() / self.U[self.ast.unit]
+        tolerance = period * Fraction(self.sampling_tolerance)
         if duration < period - tolerance or duration > period + tolerance:
             self.sampling_violation_counter = self.sampling_violation_counter + 1
 
